@@ -428,6 +428,9 @@ SMALL_GUARDED = ("if a == 0 and b == 0:\n    out.data[:] = 0\nelif b == 0:\n    
                  "elif a == 0:\n    out.data[:] = b * x2.data\nelse:\n    out.data[:] = a * x1.data + b * x2.data\nreturn")
 
 
+SMALL_ZEROZERO = ("if a == 0 and b == 0:\n    out.data[:] = 0\nelse:\n    out.data[:] = a * x1.data + b * x2.data\nreturn")
+
+
 def small_regime_variant(tree):
     """The branch of npy_tensors._lincomb_impl for sizes below THRESHOLD_SMALL: the unguarded
     one-liner (False), the form that skips zero terms (True); anything else fails closed."""
@@ -439,9 +442,11 @@ def small_regime_variant(tree):
                         raise TranslateError('%s:%d: unexpected small-size test' % (NPY_TENSORS_PY, st.lineno))
                     txt = '\n'.join(ast.unparse(b) for b in st.body)
                     if txt == SMALL_UNGUARDED:
-                        return False
+                        return 'SvUnguarded'
+                    if txt == SMALL_ZEROZERO:
+                        return 'SvZeroZero'
                     if txt == SMALL_GUARDED:
-                        return True
+                        return 'SvGuarded' 
                     raise TranslateError('%s:%d: small-size branch of _lincomb_impl outside the grammar: %s'
                                          % (NPY_TENSORS_PY, st.lineno, txt[:200]))
     raise TranslateError('%s: _lincomb_impl small-size branch not found' % NPY_TENSORS_PY)
@@ -473,8 +478,8 @@ def translate(repo=None):
     t = ast.parse(open(os.path.join(repo, NPY_TENSORS_PY)).read())
     out.append('Definition threshold_small : nat := %d.' % module_int(t, 'THRESHOLD_SMALL', NPY_TENSORS_PY))
     out.append('Definition threshold_medium : Z := %d%%Z.' % module_int(t, 'THRESHOLD_MEDIUM', NPY_TENSORS_PY))
-    out.append('(* does the small-size branch of _lincomb_impl skip terms with a zero coefficient? *)')
-    out.append('Definition small_guarded : bool := %s.' % ('true' if small_regime_variant(t) else 'false'))
+    out.append('(* which form the small-size branch of _lincomb_impl has *)')
+    out.append('Definition small_guarded : small_variant := %s.' % small_regime_variant(t))
     out.append('')
     names = []
     for coqname, src, clsname, cfg in CLASSES:
